@@ -190,6 +190,7 @@ def generate(rng, config):
                        "dag": [registry.g_dag(rng, 5)],
                        "bipartite": [registry.g_bip(rng, 4, 4, lmin=1)]},
             "nx": rng.random() < 0.3,
+            "nx_loop": rng.random() < 0.25,
             "nxd": rng.random() < 0.25,
             "nxb": rng.choice([None, None, None, "int", "str"]),
             "lists": [[rng.choice([1, -1]) * rng.randint(1, 5)
@@ -298,6 +299,16 @@ def execute(case, ctx):
     for g in case["graphs"]["dag"]:
         gidx["dag"].append(pool.add(
             "graph", registry.mk_dag(g, nx=case.get("nxd", False)), "dag"))
+    if case.get("nx_loop") and case["nx"]:
+        # a networkx graph with a loop: no simple graph, refused (or served
+        # without the loop) - and left alone
+        G0 = pool.items[gidx["simple"][0]][1]
+        if hasattr(G0, "add_edge") and not hasattr(G0, "number_of_vertices") \
+                and G0.number_of_nodes() > 0:
+            v0 = sorted(G0.nodes(), key=str)[0]
+            G0.add_edge(v0, v0, weight=3)
+            pool.resnap(gidx["simple"][0])
+            ctx.fault("networkx_graph_with_a_loop")
     for g in case["graphs"]["bipartite"]:
         gidx["bipartite"].append(pool.add(
             "graph", registry.mk_bip(g, nx=case.get("nxb")),
@@ -520,6 +531,8 @@ def execute(case, ctx):
                 if tw[0] == "ok":
                     twin = (tw[1], None)
             r = call(_constraint_call, F, k, op, arg)
+            if r[0] == "exc" and isinstance(r[1], Violation):
+                raise r[1]
             if (op["as_tuple"] or one_shot) and twin is not None:
                 # the container of the literals must not matter: the same
                 # call with a list on a copy of the formula (a one-shot
@@ -646,10 +659,20 @@ def _constraint_call(F, k, op, arg):
     if k == "linear" and isinstance(F, CNF):
         return F.add_linear(arg, op["rel"], op["value"], check=op["check"])
     if k == "linear":
-        terms = [(1, l) for l in arg]
+        terms = [(1 if i % 3 else -2, l) for i, l in enumerate(arg)]
         rel = op["rel"] if op["rel"] != "!=" else "=="
-        return F.add_constraint(terms + [rel, op["value"]],
-                                check=op["check"])
+        # the constraint is the caller's list: it comes back as it went
+        cons = terms + [rel, op["value"]]
+        before = list(cons)
+        try:
+            if op["value"] % 2:
+                return F.add_constraints_from([cons], check=op["check"])
+            return F.add_constraint(cons, check=op["check"])
+        finally:
+            if cons != before:
+                raise Violation(
+                    "C19/list-changed-by/constraint:add_constraint",
+                    "the constraint %r came back as %r" % (before, cons))
     if k.startswith("cardinality"):
         return getattr(F, k)(arg, op["value"], check=op["check"])
     if k == "parity":
